@@ -210,7 +210,8 @@ static std::string judge(const std::string& body, int ctx, size_t pad, Case& c) 
     }
     default: {  // UpdateLazy decodes keys of both sides
       if (!e.accept) return "";
-      std::string t = "{" + lit + ":1,\"p\":2}";
+      // (a second, short escaped name follows in the same object: decoding it must not disturb the first one)
+      std::string t = "{" + lit + ":1,\"p\":2,\"e\\n\":9}";
       std::string s = "{\"q\":3," + lit + ":{\"n\":4}}";
       std::string out = UpdateLazy(t, s);
       refjson::Result r = refjson::parse(out);
@@ -222,9 +223,10 @@ static std::string judge(const std::string& body, int ctx, size_t pad, Case& c) 
         want.o.emplace_back("p", MV::uint(2));  // t = {"p":1,"p":2}: duplicate keys - outside the property
         return "";
       }
-      if (e.bytes == "q") return "";
+      if (e.bytes == "q" || e.bytes == "e\n") return "";
       want.o.emplace_back(e.bytes, inner);
       want.o.emplace_back("p", MV::uint(2));
+      want.o.emplace_back("e\n", MV::uint(9));
       want.o.emplace_back("q", MV::uint(3));
       if (!eq_unordered(want, r.value)) return "UpdateLazy: merged value wrong: " + printable(out, 200) + " expected " + mv_show(want, 200);
       return "";
